@@ -6,6 +6,10 @@ claimed = subprocess.run([os.path.join(V, "check"), "--list"], stdout=subprocess
 
 # id -> (category, level text, level note, technique, design ref)
 T = {
+ "C13": ("fault_enumeration",
+         "Fault enumeration plus property testing: (a) for every constructor the k-th descriptor allocation is made to fail with EMFILE for every k below what success needs (descriptor table filled, k slots freed), plus refused/conflicting/unroutable/failing-option/bad-response faults, each followed by a /proc/self/fd census comparison - the table is enumerated completely; (b) rapid-generated histories of repeated Close interleaved with creation of other objects check that only owned descriptors are ever closed (census + inode identity of every other live object); (c) rapid-generated garbage-collection points while reads and/or writes are deferred and the program holds no reference (finalizer sentinels captured by the callbacks).",
+         "Trusts /proc/self/fd, fstat inode identity and Go finalizers after forced double collection; websocket handshakes are explored with EMFILE at k=0 only (an in-process server competes for freed slots otherwise); GC points are sampled at operation boundaries.",
+         "fault enumeration (EMFILE at the k-th allocation, protocol faults) + stateful property-based testing (rapid)", "DESIGN.md §4 C13"),
  "C17": ("exploration",
          "Property testing (rapid state machine) over a real handshake, the real AsyncAdapter and a real TCP socket: generated positions of peer events (data, ping) and application calls (AsyncNextFrame/AsyncNextMessage, AsyncWrite/AsyncWriteFrame/AsyncFlush) relative to poll cycles, so that application writes overlap the read path's automatic control-reply flush; every user callback must run exactly once within a bounded number of PollOne calls, and the server-side byte stream must parse into the expected frames in order. Bounded search over schedules.",
          "Trusts the raw harness server and the independent parser; messages <= 2 KiB (the adapter writes through blocking net.Conn.Write); one read and one application write outstanding at a time.",
